@@ -197,14 +197,18 @@ fn segment_projects(max_len: usize) -> Vec<Project> {
 fn same_stem_projects() -> Vec<Project> {
     let mut out = vec![];
     let toml = "[build]\nlisting = true\nsymbols = [\"vice\"]\n".to_string();
-    for variant in 0..4 {
+    for variant in 0..6 {
         let (main, files): (&str, Vec<(&str, &str)>) = match variant {
+            // the same stem with another extension; files outside the directory of the entry file (variant 5: the
+            // entry file is src/main.asm)
+            4 => (".import * as a from \"util.asm\"\n.import * as b from \"util.inc\"\nnop\n", vec![("util.asm", "ux: lda #1\n"), ("util.inc", "uy: ldx #2\nrts\n")]),
+            5 => (".import * as a from \"../x/util.asm\"\n.import * as b from \"../y/util.asm\"\nnop\n", vec![("x/util.asm", "ux: lda #1\n"), ("y/util.asm", "uy: ldx #2\nrts\n")]),
             0 => (".import * as a from \"x/util.asm\"\n.import * as b from \"y/util.asm\"\nnop\n", vec![("x/util.asm", "ux: lda #1\n"), ("y/util.asm", "uy: ldx #2\nrts\n")]),
             1 => (".import * as a from \"x/util.asm\"\n.import * as b from \"y/util.asm\"\n.import * as c from \"util.asm\"\nnop\n", vec![("x/util.asm", "ux: lda #1\n"), ("y/util.asm", "uy: ldx #2\nrts\n"), ("util.asm", "u0: ldy #3\n")]),
             2 => (".import * as a from \"lib/main.asm\"\nnop\n", vec![("lib/main.asm", "lm: lda #1\n")]),
             _ => (".import * as a from \"x/y/util.asm\"\n.import * as b from \"x/util.asm\"\nnop\n", vec![("x/y/util.asm", "ux: lda #1\n"), ("x/util.asm", "uy: ldx #2\nrts\n")]),
         };
-        let mut fs = vec![("main.asm".to_string(), main.to_string())];
+        let mut fs = vec![(if variant == 5 { "src/main.asm" } else { "main.asm" }.to_string(), main.to_string())];
         // (the positions 1..4 are what the non-triviality key of the main loop looks at)
         for (n, t) in &files {
             fs.push((n.to_string(), t.to_string()));
@@ -212,7 +216,8 @@ fn same_stem_projects() -> Vec<Project> {
         while fs.len() < 5 {
             fs.push((format!("unused{}.asm", fs.len()), "nop\n".to_string()));
         }
-        out.push(Project { files: fs, toml: toml.clone() });
+        let toml = if variant == 5 { toml.replace("[build]\n", "[build]\nentry = \"src/main.asm\"\n") } else { toml.clone() };
+        out.push(Project { files: fs, toml });
     }
     out
 }
